@@ -97,7 +97,16 @@ func (f *DefineCondition) Call(s *slip.Scope, args slip.List, depth int) slip.Ob
 			slip.ErrorPanic(s, depth, "Can not redefine class %s.", name)
 		}
 	}
-	return DefConditionClass(s, string(name), supers, slotSpecs, args[3:], depth)
+	cc := DefConditionClass(s, string(name), supers, slotSpecs, args[3:], depth)
+	// The conditions defined in Go name built-in functions as their readers.
+	// For one defined in Lisp the readers, writers and accessors are made
+	// here, as defclass does.
+	for _, sd := range cc.slotDefs {
+		sd.defReaderMethods(cc.name)
+		sd.defWriterMethods(cc.name)
+		sd.defAccessorMethods(cc.name)
+	}
+	return cc
 }
 
 // DefConditionClass defines a standard-class.
